@@ -594,6 +594,37 @@ static void overload_case(const char *tn) {
   }
 }
 
+// ---- value-initialisation of a non-trivial type with an implicit default constructor: its scalar members are zeroed
+struct ImplicitDefault {
+  NTR h;       // makes the type non-trivial
+  int a;
+  double b;
+  char c[3];
+};
+template <class D>
+static void value_init_case(int algo, long len, const char *dname, D (*mkdest)(ImplicitDefault *)) {
+  static Buf<ImplicitDefault> buf;
+  char key[200];
+  snprintf(key, sizeof key, "%s<ImplicitDefault{NTR,int,double,char[3]}> dst=%s len=%ld", algo == 0 ? "uninitialized_value_construct" : "uninitialized_value_construct_n", dname, len);
+  if (!enum_begin(key)) return;
+  ledgers_reset();
+  buf.scribble();  // 0x5C everywhere: a default-initialised scalar member would keep it
+  feature(2);
+  if (len >= 2) feature(0);
+  D first = mkdest(buf.at(0)), last = mkdest(buf.at(len));
+  if (algo == 0) amc::uninitialized_value_construct(first, last);
+  else (void)amc::uninitialized_value_construct_n(first, len);
+  for (long i = 0; i < len && !failed(); ++i) {
+    const ImplicitDefault &e = *buf.at(i);
+    if (e.a != 0 || e.b != 0.0 || e.c[0] != 0 || e.c[1] != 0 || e.c[2] != 0)
+      violation(P15, "value-initialised element %ld has non-zero scalar members (a=%d): it was default-initialised", i, e.a);
+    if (!failed() && val_of(e.h) != 0) violation(P15, "class member of element %ld was not default constructed", i);
+  }
+  for (long i = 0; i < len; ++i) buf.at(i)->~ImplicitDefault();
+  if (!failed() && cells().live != 0) violation(P15 | P02, "leak");
+  enum_end(len >= 2);
+}
+
 template <class E>
 static void run_elem(const char *ename, bool copyable_family, bool has_magic) {
   std::vector<long> lens;
@@ -652,6 +683,11 @@ int main(int argc, char **argv) {
   convert_cases<int8_t, uint8_t>("int8_t", "uint8_t");
   convert_cases<uint32_t, int32_t>("uint32_t", "int32_t");
   convert_cases<char, bool>("char", "bool");
+  for (int algo = 0; algo < 2; ++algo)
+    for (long len = 0; len <= 6; ++len) {
+      value_init_case<ImplicitDefault *>(algo, len, "ptr", &mk_ptr<ImplicitDefault>);
+      value_init_case<FwdRaw<ImplicitDefault> >(algo, len, "fwd", &mk_fwd<ImplicitDefault>);
+    }
   overload_case<FwdCtor>("FwdCtor");
   overload_case<TwoCopies>("TwoCopies");
   return enum_finish(&feat, "");
